@@ -43,13 +43,22 @@ DEP_POOL = [
     {"k": "headc", "kids": [{"k": "text", "s": "x<y"}]},
     {"k": "meta"},
 ]
+# same name and version as DEP_POOL[0] but another directory: results must not depend on which one was asked first
+DEP_POOL.insert(6, {"k": "dep", "name": "a", "version": "1.0", "source": {"package": "htmltools", "subdir": "libtest/dep2"}, "script": [{"src": "td2.js"}], "stylesheet": [{"href": "td2.css"}]})
+VOID_LEAVES = [
+    {"k": "tag", "name": "br", "ws": False, "attrs": [], "kids": []},
+    {"k": "tag", "name": "hr", "ws": True, "attrs": [["class_", "sep"]], "kids": []},
+    {"k": "tag", "name": "img", "ws": False, "attrs": [["src", "i.png"], ["alt", "a"]], "kids": []},
+    {"k": "tag", "name": "input", "ws": False, "attrs": [["type", "text"]], "kids": []},
+    {"k": "tag", "name": "span", "ws": False, "attrs": [], "kids": []},
+]
 
 
 def rich_leaf(tfy: bool = True, plain_only: bool = False):
     text = st.builds(lambda s: {"k": "text", "s": s}, st.one_of(gen.safe_text(0, 4), gen.hot_text(3)))
     html = st.builds(lambda s: {"k": "html", "s": s}, st.one_of(st.sampled_from(["<b>x</b>", "&amp;", ""]), gen.hot_text(3)))
     dep = st.sampled_from(DEP_POOL[:-1] if plain_only else DEP_POOL)
-    alts = [text, text, html, dep, dep]
+    alts = [text, text, html, dep, dep, st.sampled_from(VOID_LEAVES)]
     if not plain_only:
         alts.append(st.builds(lambda s: {"k": "repr", "s": "<u>" + s + "</u>"}, gen.safe_text(0, 3)))
     return gen.opaque(st.one_of(*alts))
@@ -239,7 +248,12 @@ def apply_op(obj, kind, op, arg, tmp):
         if op == "as_dict":
             return True, norm_result(obj.as_dict(lib_prefix=arg[0], include_version=arg[1]))
         if op == "source_path_map":
-            return True, norm_result(obj.source_path_map(lib_prefix=arg[0], include_version=arg[1]))
+            spm = obj.source_path_map(lib_prefix=arg[0], include_version=arg[1])
+            src = obj.source
+            if isinstance(src, dict) and src.get("package") == "htmltools":
+                want = os.path.join(os.path.dirname(h.__file__), src["subdir"])
+                check(os.path.realpath(spm["source"]) == os.path.realpath(want), "source_path_map()['source'] is not this dependency's own directory (depends on what was asked before?)", want, spm["source"])
+            return True, norm_result(spm)
         if op == "serialize":
             return True, obj.serialize_to_script_json(arg).get_html_string()
     return False, None
